@@ -455,6 +455,10 @@ class Engine(object):
         if ty == 'setlike':
             c = ex.as_coll(sv, path, 'pass')
             return SV('coll', None, Coll('H', c.mem, True))
+        for x in self.ext:
+            r = x.coerce(self, ex, sv, ty, path)
+            if r is not None:
+                return r
         raise Unsupported('%s: cannot pass %s as %s' % (what, sv.ty, ty))
 
     def default_of(self, ex, ty, path):
@@ -856,6 +860,9 @@ class Extension(object):
         return None
 
     def super_call(self, E, ex, cls, attr, node, path):
+        return None
+
+    def coerce(self, E, ex, sv, ty, path):
         return None
 
     def coerce_return(self, E, ex, val, ret, path):
